@@ -81,7 +81,7 @@ package rlp
 
 //@ pred wfStream(s *Stream) = s != nil && s.r != nil && len(s.uintbuf) == 8 && forall(i, 0, len(s.stack), s.stack[i].pos <= s.stack[i].size) && cacheOK(s)
 // the cached (kind, size) of the value ahead was checked against the remaining input when it was read
-//@ pred cacheOK(s *Stream) = s.kind >= 0 && s.kinderr == nil ==> (s.kind == Byte ==> s.size == 0) && (s.limited && len(s.stack) == 0 ==> s.size <= s.remaining)
+//@ pred cacheOK(s *Stream) = s.kind >= 0 && s.kinderr == nil ==> (s.kind == Byte ==> s.size == 0 && s.byteval < 128) && (s.limited && len(s.stack) == 0 ==> s.size <= s.remaining)
 
 //@ func (ByteReader).Read   trusted
 //@   modifies elems(p)
@@ -126,7 +126,7 @@ package rlp
 //@   props C14 C15
 //@   requires wfStream(s)
 //@   ensures wfStream(s) && s.limited == old(s.limited) && s.remaining <= old(s.remaining) && len(s.stack) == old(len(s.stack))
-//@   ensures err == nil && kind == Byte ==> size == 0
+//@   ensures err == nil && kind == Byte ==> size == 0 && s.byteval < 128
 //@   nopanic
 
 //@ func (*Stream).Kind
@@ -134,7 +134,7 @@ package rlp
 //@   requires wfStream(s)
 //@   ensures wfStream(s) && s.limited == old(s.limited) && s.remaining <= old(s.remaining) && len(s.stack) == old(len(s.stack))
 //@   ensures err == nil && s.limited && len(s.stack) == 0 ==> size <= s.remaining
-//@   ensures err == nil && kind == Byte ==> size == 0
+//@   ensures err == nil && kind == Byte ==> size == 0 && s.byteval < 128
 //@   nopanic
 
 // a string value never makes the decoder allocate more than the input that is left (top level, limited stream)
@@ -143,6 +143,21 @@ package rlp
 //@   requires wfStream(s) && s.limited && len(s.stack) == 0 && s.remaining <= 1<<40
 //@   opt alloc-bound=!s.limited || len(s.stack) > 0 || uint64($size) <= s.remaining
 //@   ensures wfStream(s)
+//@   ensures result1 == nil && kind == String && size == 1 ==> result0[0] >= 128
+//@   ensures result1 == nil ==> (kind == Byte && len(result0) == 1 && result0[0] < 128) || (kind == String && uint64(len(result0)) == size)
+//@   nopanic
+
+// canonical integers: the bytes handed to big.Int.SetBytes never start with a zero byte (a big integer has one encoding)
+//@ func decodeBigInt
+//@   props C14
+//@   requires wfStream(s) && s.limited && len(s.stack) == 0 && s.remaining <= 1<<40
+//@   assert @call SetBytes#0: len(b) == 0 || b[0] != 0
+
+//@ func (*Stream).Bool
+//@   props C14 C15
+//@   requires wfStream(s)
+//@   ensures wfStream(s)
+//@   ensures result1 == nil ==> num <= 1 && (result0 <==> num == 1)
 //@   nopanic
 
 //@ func (*Stream).uint
